@@ -281,6 +281,8 @@ func (e *integEngine) preemptPark(name string) {
 
 func (e *integEngine) installHooks() {
 	c := e.c
+	// the order in which Finish takes the execution contexts down (taskctl: iteration order of a sync.Map)
+	atomic.StoreUint64(&vsync.RangeSeed, uint64(1+c.Ch.Choose(1<<16, "finish-order-seed")))
 	vsync.ResetPoints()
 	vsync.PointHook.Store(func(id string) {
 		// a cancel listener of the command line woke up (abort() closed the channel): it acts when
